@@ -13,12 +13,25 @@ for sd in seeds:
     pid = meta["property"]
     if props and pid not in props:
         continue
-    assert subprocess.run(["git", "-C", "/repo", "status", "--porcelain", "--untracked-files=no"], capture_output=True, text=True).stdout.strip() == "", "/repo not clean"
-    subprocess.run(["git", "-C", "/repo", "apply", str(sd / "patch.diff")], check=True)
-    try:
-        r = subprocess.run(["./check", pid, "quick"], cwd=V, capture_output=True, text=True, timeout=1800)
-    finally:
-        subprocess.run(["git", "-C", "/repo", "checkout", "--", "."], check=True)
+    if "--worktree" in sys.argv:
+        # leave /repo alone (e.g. while a long run uses it): scratch worktree + CBI_REPO
+        import os, tempfile
+        wt = tempfile.mkdtemp(prefix="seedwt_")
+        os.rmdir(wt)
+        subprocess.run(["git", "-C", "/repo", "worktree", "add", "-q", "--detach", wt, "HEAD"], check=True)
+        try:
+            subprocess.run(["git", "-C", wt, "apply", str(sd / "patch.diff")], check=True)
+            r = subprocess.run(["./check", pid, "quick"], cwd=V, capture_output=True, text=True, timeout=1800,
+                               env=dict(os.environ, CBI_REPO=wt))
+        finally:
+            subprocess.run(["git", "-C", "/repo", "worktree", "remove", "--force", wt])
+    else:
+        assert subprocess.run(["git", "-C", "/repo", "status", "--porcelain", "--untracked-files=no"], capture_output=True, text=True).stdout.strip() == "", "/repo not clean"
+        subprocess.run(["git", "-C", "/repo", "apply", str(sd / "patch.diff")], check=True)
+        try:
+            r = subprocess.run(["./check", pid, "quick"], cwd=V, capture_output=True, text=True, timeout=1800)
+        finally:
+            subprocess.run(["git", "-C", "/repo", "checkout", "--", "."], check=True)
     vio = [l for l in r.stdout.splitlines() if l.startswith("VIOLATION")]
     caught = r.returncode == 1 and bool(vio)
     how = "not caught"
